@@ -994,7 +994,7 @@ func main() {
 		bodyFns := []string{"dispatch.Call", "dispatch.Notify", "dispatch.handleCancel", "callRequest.Reply",
 			"callCompressedRequest.Reply", "callRequest.Serve", "callCompressedRequest.Serve", "notifyRequest.Serve",
 			"Connection.connect", "Connection.waitForConnection", "transport.closeWithErr",
-			"receiveHandler.handleReceiveDispatch", "framedMsgpackEncoder.writerLoop", "transport.receiveFramesLoop", "Connection.doReconnect", "Connection.DoCommand", "rpcResponseMessage.DecodeMessage", "receiveHandler.receiveResponse", "NetworkInstrumenter.Finish", "receiveHandler.taskLoop", "transport.receiveFrames", "framedMsgpackEncoder.encodeAndWriteInternal", "receiveHandler.Close", "dispatch.Close", "framedMsgpackEncoder.EncodeAndWrite", "framedMsgpackEncoder.EncodeAndWriteAsync", "framedMsgpackEncoder.encodeFrame", "packetizer.NextFrame", "frameReader.drain", "decodeRPC", "transport.Close", "transport.closeWithErr", "lastErrReader.Read", "frameReader.Read", "frameReader.ReadByte"}
+			"receiveHandler.handleReceiveDispatch", "framedMsgpackEncoder.writerLoop", "transport.receiveFramesLoop", "Connection.doReconnect", "Connection.DoCommand", "rpcResponseMessage.DecodeMessage", "receiveHandler.receiveResponse", "NetworkInstrumenter.Finish", "receiveHandler.taskLoop", "transport.receiveFrames", "framedMsgpackEncoder.encodeAndWriteInternal", "receiveHandler.Close", "dispatch.Close", "framedMsgpackEncoder.EncodeAndWrite", "framedMsgpackEncoder.EncodeAndWriteAsync", "framedMsgpackEncoder.encodeFrame", "packetizer.NextFrame", "frameReader.drain", "decodeRPC", "transport.Close", "lastErrReader.Read", "frameReader.Read", "frameReader.ReadByte"}
 		var items []string
 		for _, fn := range bodyFns {
 			fd, ok := fm[fn]
